@@ -184,6 +184,12 @@ var zzC05Divs = []string{"floor", "ceiling", "truncate", "round"}
 // round is checked on operands below 2^zzC05RoundBits (non-linear queries)
 var zzC05RoundBits = 10
 
+// round with a bignum operand and a negative operand: slip divides the magnitudes
+// and restores the signs, the reference divides the signed values, so the solver
+// has to relate two different non-linear terms; it decides that below 2^8 only
+// (with non-negative operands both sides build the same term).
+var zzC05RoundNegBits = 8
+
 // VerifC05RoundSmall: the round obligation on operands below 2^6 (used to probe
 // the known findings about round cheaply).
 func VerifC05RoundSmall(rep0 int, rep1 int) {
@@ -213,6 +219,10 @@ func VerifC05Division(kind int, rep0 int, rep1 int) {
 		// non-linear: keep the fixnum round obligation within solver reach
 		lim := big.NewInt(1 << uint(zzC05RoundBits))
 		vrt.Assume(new(big.Int).Abs(vx).Cmp(lim) < 0 && new(big.Int).Abs(vy).Cmp(lim) < 0)
+		if (rep0 == 1 || rep1 == 1) && zzC05RoundNegBits < zzC05RoundBits && (vx.Sign() < 0 || vy.Sign() < 0) {
+			nlim := big.NewInt(1 << uint(zzC05RoundNegBits))
+			vrt.Assume(new(big.Int).Abs(vx).Cmp(nlim) < 0 && new(big.Int).Abs(vy).Cmp(nlim) < 0)
+		}
 	}
 	out := zzC05Call(zzC05Divs[kind], x, y)
 	vrt.Reach("called")
